@@ -1,7 +1,7 @@
 (** C20 -- Validation chains stop at the first failure and report it exactly once.
     Statements only; every proof is [exact] of a lemma in Core/Checker.v, which is about the definitions
     go2v generates from checker/checker.go (Gen/Checker.v). *)
-From Saml Require Import Base.Bytes Base.Loops Gen.Checker Core.Checker.
+From Saml Require Import Base.Bytes Base.Loops Idp.FactTypes Gen.Facts Gen.Checker Core.Checker Idp.Sso Proofs.ChainRefine.
 
 (** the generated evaluator on a chain built with the generated constructors is the reference semantics:
     steps in the order added, each kind failing exactly on its documented condition *)
@@ -51,6 +51,17 @@ Proof. intros n l. rewrite repeat_run_spec, app_nil_r, rev_involutive. split; re
 Theorem C20_chain_is_value : forall (W : Type) (log : SM W unit) ds, build W log ds = map (gen_step W log) ds.
 Proof. intros. apply build_map. Qed.
 
+(** the handler models evaluate their chains with the generated checker: for the SSO chain (and likewise logout and
+    attribute query, Proofs/ChainRefine.v) the generated CheckFailed, run on the chain's steps presented as logic steps
+    over the handler's world (locals, replies written, nil dereference), computes exactly the model's [run_chain] --
+    steps in order, the first failing step's reply and nothing after it *)
+Theorem C20_handlers_use_checker : forall e_form decode lookup verify_redirect verify_post instant_of now create want_signed sso_locs entity_id c st,
+  outcome_of (CheckFailed (SM world) (@sret world) (@sbind world)
+                (build world nolog (map (desc_of e_form decode lookup verify_redirect verify_post instant_of now create want_signed sso_locs entity_id) c))
+                {| w_st := st; w_out := []; w_panic := false |})
+  = run_chain e_form decode lookup verify_redirect verify_post instant_of now create want_signed sso_locs entity_id c st.
+Proof. exact sso_chain_refines. Qed.
+
 (** non-vacuity: a three-step chain whose second step fails *)
 Example C20_example :
   trace_of [IValueNotEmpty (b "x"); ICondLogic true true; ILogic true]
@@ -70,3 +81,4 @@ Print Assumptions C20_no_later.
 Print Assumptions C20_fails_iff.
 Print Assumptions C20_repeat.
 Print Assumptions C20_chain_is_value.
+Print Assumptions C20_handlers_use_checker.
